@@ -1,4 +1,4 @@
-\* generation (quick): 2 mountpoints, 1 label set, 2 Init requests, 2 manager processes
+\* generation (quick default; tools/props/C17.py overrides NMp/MaxInit/MaxEpoch/Labs for the other graphs): 2 mountpoints, 1 label set, 2 Init requests, 2 manager processes
 CONSTANTS
     NMp = 2
     Labs = {"la"}
